@@ -564,6 +564,21 @@ impl<'a> Exec<'a> {
                 // the state after the batch is checked right away
                 self.full_compare(o)?;
             }
+            Op::PutFromOwnIter { t } => {
+                let r = self.hnd().put_from_own_iter(*t);
+                if let Err(e) = r {
+                    fail!("error", o, "put_from_iter fed by a traversal of the same map returned Err: {e}");
+                }
+                let ms = &mut self.maps[self.curm];
+                for v in ms.model.values_mut() {
+                    *v = crate::dbx::own_iter_transform(*t, v);
+                }
+                ms.updates_since_sync += 1;
+                if ms.model.len() >= 2 {
+                    self.rep.bump("put_from_iter_fed_by_own_traversal");
+                }
+                self.full_compare(o)?;
+            }
             Op::Iter { f, take } => {
                 let f = *f % 7;
                 let out = self.hnd().iterate(f, take.map(|t| t as usize), 3);
@@ -661,6 +676,35 @@ impl<'a> Exec<'a> {
                 ms.handles.push(nh);
                 ms.cur = ms.handles.len() - 1;
                 self.rep.bump("handle_reacquire");
+            }
+            Op::ReacquireP { v } => {
+                let db = self.dbs[(*v as usize / 4) % self.dbs.len()].clone();
+                let ms = &mut self.maps[self.curm];
+                let mut p = ms.params;
+                match *v % 4 {
+                    0 => {}
+                    1 => {
+                        p.val = BufP::Size(4096 * (1 + (*v as u32 / 4) % 5));
+                        p.key = BufP::Auto;
+                    }
+                    2 => {
+                        p.val = BufP::Auto;
+                        p.key = BufP::Auto;
+                        p.htx = BufP::Auto;
+                    }
+                    _ => {
+                        p.key = BufP::Size(65536);
+                        p.htx = BufP::Auto;
+                        p.buckets = Buckets::BucketsSize(7);
+                    }
+                }
+                let nh = match open_map(&db, &ms.name, ms.kt, &p) {
+                    Ok(h) => h,
+                    Err(e) => fail!("error", o, "re-acquiring an open map with parameters returned Err: {e}"),
+                };
+                ms.handles.push(nh);
+                ms.cur = ms.handles.len() - 1;
+                self.rep.bump("handle_reacquire_with_params");
             }
             Op::CloneDb => {
                 let db = self.dbs[self.dbs.len() - 1].clone();
@@ -1160,6 +1204,7 @@ impl<'a> Exec<'a> {
                             Op::BulkPut { .. }
                                 | Op::BulkPutStr { .. }
                                 | Op::PutFromIter { .. }
+                                | Op::PutFromOwnIter { .. }
                                 | Op::BulkDel { .. }
                                 | Op::BulkDelStr { .. }
                         )
@@ -1727,6 +1772,11 @@ pub fn model_after(h: &History, n_ops: usize) -> Vec<BTreeMap<Vec<u8>, Vec<u8>>>
             Op::PutFromIter { kvs } => {
                 for (k, v) in kvs {
                     models[cur].insert(key(cur, *k), v.bytes());
+                }
+            }
+            Op::PutFromOwnIter { t } => {
+                for v in models[cur].values_mut() {
+                    *v = crate::dbx::own_iter_transform(*t, v);
                 }
             }
             Op::Use { m } => cur = *m as usize % h.maps.len(),
